@@ -303,6 +303,7 @@ pub fn cmd_e1(args: &Args) -> i32 {
         .set("faults_planned", J::u(faults_planned))
         .set("faults_fired", J::u(faults_fired))
         .set("bb_ops", J::u(bb_ops))
+        .set("runs_not_simulated_large_input_whose_sequential_build_panics", J::u(crate::c09::SKIPPED_LARGE_SEQ_PANIC.load(std::sync::atomic::Ordering::Relaxed)))
         .set("variant_kinds", J::Obj(variant_kinds.into_iter().map(|(k, v)| (k, J::u(v))).collect()))
         .set("simulated_clock_reads", J::u(sim_rayon::clock::reads()))
         .set("wall_s", J::Num(wall))
@@ -350,6 +351,11 @@ pub fn cmd_ref(args: &Args) -> i32 {
         for ((c, op, f), o) in &refs {
             println!("REF {} {}{} {}", c, op.name(), f.map_or(String::new(), |(a, b)| format!("!{}.{}", a, b)), o.to_line());
         }
+    }
+    // for the launcher's crash / hang triage: a sequential build that panics by itself stops at the first
+    // failing cell, so its cost says nothing about the cost of the parallel call
+    if refs.iter().any(|(k, o)| k.2.is_none() && matches!(o, vcore::Outcome::Panic(_))) {
+        println!("SEQ-PANIC");
     }
     println!("references computed: {}", refs.len());
     0
